@@ -176,6 +176,7 @@ type session struct {
 	authors  []*identity.Identity
 	names    map[entity.Id]string
 	files    map[repository.Hash][]byte
+	pool     []repository.Hash
 	unix     int64
 	events   []*Event
 	lastHead repository.Hash
@@ -194,16 +195,24 @@ func (s *session) newFile() repository.Hash {
 	h, err := s.repoA.StoreData(data)
 	hx.Must(err)
 	s.files[h] = data
+	s.pool = append(s.pool, h)
 	return h
 }
 
 func (s *session) files2() []repository.Hash {
+	// new files and files already attached earlier (to this operation, to another operation of the same staging area, to an
+	// operation committed long ago), in any position
 	var fs []repository.Hash
-	for i := 0; i < s.r.n(3); i++ {
-		fs = append(fs, s.newFile())
-	}
-	if len(fs) == 2 && s.r.n(2) == 0 {
-		fs = append(fs, fs[0]) // the same file twice
+	n := s.r.n(5)
+	for i := 0; i < n; i++ {
+		switch {
+		case len(fs) > 0 && s.r.n(4) == 0:
+			fs = append(fs, fs[s.r.n(len(fs))])
+		case len(s.pool) > 0 && s.r.n(3) == 0:
+			fs = append(fs, s.pool[s.r.n(len(s.pool))])
+		default:
+			fs = append(fs, s.newFile())
+		}
 	}
 	return fs
 }
